@@ -18,7 +18,7 @@ DESCRIPTION = {
     "assumptions": ["arg-less random.seed() calls made by WebSocket factories are routed to a case-derived seed inside the worker so that the jitter is a function of the case", "exact delay values (jitter is random by design) are not asserted, only the bounds", "time advances only through the harness; unbounded liveness is checked as bounded liveness"],
 }
 
-OUTCOMES = ["refused", "refused", "hs-rejected", "abort", "lost-unclean", "lost-clean", "goodbye-shutdown", "goodbye-normal", "main-returns", "main-raises"]
+OUTCOMES = ["refused", "refused", "hs-rejected", "abort", "lost-before-welcome", "lost-unclean", "lost-clean", "goodbye-shutdown", "goodbye-normal", "main-returns", "main-raises"]
 
 
 def plan(tier, seed):
@@ -296,6 +296,13 @@ class World:
                         self.end_conn(conn, "done")
                         break
                     if m[0] == 1:       # HELLO
+                        if conn.outcome == "lost-before-welcome":
+                            # the transport is up and the session has said HELLO, then the connection breaks (uncleanly) before the router answered:
+                            # a lost connection like any other.  (A *clean* close at this point is treated by the component as "done" - the
+                            # statement does not list that outcome and it is not generated.)
+                            conn.stage = "lost-early"
+                            self.end_conn(conn, "lost")
+                            break
                         if conn.outcome == "abort":
                             self.send_wamp(conn, [3, {"message": "no"}, "wamp.error.no_such_realm"])
                             conn.stage = "aborted"
